@@ -16,6 +16,16 @@ pub struct MinReg<V> {
 /// C11: the register keeps the smallest value ever applied (ties keep the current one)
 pub open spec fn min_update<V: Ord>(cur: V, val: V) -> V { if lt(val, cur) { val } else { cur } }
 
+impl<V: Default> Default for MinReg<V> {
+//@extract fn src/minreg.rs "Default for MinReg" default
+    fn default() -> /*@ (r: @*/ Self /*@ ) @*/
+    //@ ensures V::default.ensures((), r.val),
+    {
+        Self { val: V::default() }
+    }
+//@end
+}
+
 impl<V: Ord> CvRDT for MinReg<V> {
     type Validation = Infallible;
     open spec fn cv_inv(&self) -> bool { ord_ok::<V>() }
@@ -72,6 +82,14 @@ impl<V: Ord> CmRDT for MinReg<V> {
 }
 
 impl<V: Ord> MinReg<V> {
+//@extract fn src/minreg.rs "MinReg" new
+    pub fn new(&mut self, val: V) -> /*@ (r: @*/ Self /*@ ) @*/
+    //@ ensures r.val == val, *final(self) == *old(self),
+    {
+        MinReg { val }
+    }
+//@end
+
 //@extract fn src/minreg.rs "MinReg" update
     pub fn update(&mut self, val: V)
     //@ requires ord_ok::<V>(),
